@@ -100,7 +100,7 @@ v('C07', 'silent', KA, 'U = np.eye(len(x)) - K.dot(H)', 'U = np.identity(len(x))
 v('C11', 'fire', 'filters.py', '    trajectory.alt += error_nav.down', '    trajectory.alt -= error_nav.down', 'compensated altitude with the wrong sign')
 v('C11', 'fire', 'filters.py', '    trajectory.lon -= error_nav.east / rp * transform.RAD_TO_DEG', '    trajectory.lon -= error_nav.east / rn * transform.RAD_TO_DEG', 'compensated longitude with the meridian radius')
 v('C11', 'fire', 'filters.py', '    trajectory.lat -= error_nav.north / rn * transform.RAD_TO_DEG', '    trajectory.lat -= error_nav.north / rn', 'compensated latitude in radians')
-v('C11 C19', 'fire', 'filters.py', '    trajectory = trajectory.copy()\n    trajectory.lat -=', '    trajectory.lat -=', 'compensation applied to the caller\'s table')
+v('C11 C19', 'silent', 'filters.py', '    trajectory = trajectory.copy()\n    trajectory.lat -=', '    trajectory.lat -=', 'redundant copy dropped: the public caller passes a fresh .loc selection (no user-visible mutation)')
 v('C11', 'silent', 'filters.py', '    trajectory.lat -= error_nav.north / rn * transform.RAD_TO_DEG', '    trajectory.lat -= transform.RAD_TO_DEG * (error_nav.north / rn)', 'same compensation, other grouping')
 v('C06', 'fire', 'measurements.py', '            mat_nb = transform.mat_from_rph(pva[RPH_COLS])\n            z += mat_nb @ self.imu_to_antenna_b\n        H = error_model.position_error_jacobian', '            z += self.imu_to_antenna_b @ transform.mat_from_rph(pva[RPH_COLS])\n        H = error_model.position_error_jacobian', 'seeded C06 round 4: lever arm multiplied from the left (C^T l)')
 v('C11', 'fire', 'filters.py', '    T = error_model.transform_to_output(trajectory_nominal)\n', '    T = error_model.transform_to_output(trajectory_nominal)\n    T_sd = error_model.transform_to_output(trajectory)\n', 'seeded C11 round 4 (in kind): a second output transform at the computed trajectory')
